@@ -896,6 +896,19 @@ func Run(r *core.Run) {
 		}
 	}
 	phase("vendored_structure")
+	{
+		// key-object reuse: a few keys of different sizes (first tiny, first small, first two vendored)
+		var sel []*key
+		seenClass := map[string]int{}
+		for _, k := range all {
+			if seenClass[k.class] < 2 {
+				seenClass[k.class]++
+				sel = append(sel, k)
+			}
+		}
+		c.reuse(sel)
+		phase("key_object_reuse")
+	}
 	sort.SliceStable(all, func(i, j int) bool { return all[i].sk.N.BitLen() > all[j].sk.N.BitLen() })
 	// batteries: the large keys use the cores inside one key, the small ones across keys
 	var smallKeys []*key
